@@ -324,6 +324,11 @@ def variation_points(pm: ProgramModel, ctx: Ctx, mb: ModelBuilder, fn: Any) -> N
         raise AnalysisError(rule, "cannot identify worklist / result of variation_points",
                             loc(fn.unit.path, fn.node))
     param = fn.params[0]
+    from ..steps import extra_loop_state
+    extra = extra_loop_state(pre, loop, {W, R, param})
+    if extra:
+        raise AnalysisError(rule, f"the loop carries further state {extra}: step check not applicable",
+                            loc(fn.unit.path, fn.node))
     root = mb.feature("root")
     mb.relation(root, [mb.feature("m")], 0, 1)
     env: dict[str, Any] = {param: mb.model(root, [])}
